@@ -309,6 +309,24 @@ def oracle_rqs(c, ctx):
     u = unwrap(obj)
     xk, yk, dk = (np.asarray(v, np.float64) for v in (u.x_pos, u.y_pos, u.derivatives))
     K = int(c["knots"])
+    # the knots themselves, from the RAW parameters and the constructor arguments (documented formula):
+    # widths = (softmax(raw) + adj/K)/(1 + adj), first width halved, cumulative, padded with the interval ends
+    def doc_pos(raw):
+        e = np.exp(raw - np.max(raw))
+        wdt = (e / e.sum() + float(c["softmax_adjust"]) / K) / (1 + float(c["softmax_adjust"]))
+        wdt[0] = wdt[0] / 2
+        return np.concatenate([[a], a + (b - a) * np.cumsum(wdt), [b]])
+    try:
+        raws = [np.asarray(getattr(obj, nm).args[0], np.float64) for nm in ("x_pos", "y_pos")]
+        raw_d = np.asarray(obj.derivatives.args[0], np.float64)
+    except Exception:  # noqa: BLE001  (parameterisation refactored: fall back to what unwrap reports)
+        raws, raw_d = None, None
+    if raws is not None:
+        for nm, raw, got in (("x_pos", raws[0], xk), ("y_pos", raws[1], yk)):
+            close(got, doc_pos(raw), f"RQS|knot_positions_vs_documented_formula.{nm}",
+                  f"softmax_adjust={c['softmax_adjust']} knots={K} interval={iv}", rt=1e-10, scale=1 + np.abs(got))
+        close(dk, softplus(raw_d) + float(c["min_derivative"]), "RQS|knot_derivatives_vs_documented_formula",
+              f"min_derivative={c['min_derivative']}", rt=1e-10, scale=1 + np.abs(dk))
     if len(xk) != K + 2 or len(dk) != K + 2:
         raise Violation("C07|RQS|knot_count", f"{len(xk)} positions for knots={K}")
     pts = [a + t * (b - a) for t in c["u"]] + [a, b, a - 0.5, b + 0.5, a - 1e3, b + 1e3]
